@@ -160,7 +160,18 @@ def run_case(ctx, i, rng):
             ctx.violation('C43:stopped-before-stop-task-succeeded',
                           f'stop task {tid}: automatic shutdown although it '
                           'has not succeeded', dict(detail, jobs=jobs))
-        if succeeded and not auto and not last.get('capped'):
+        # did it succeed after the request (the statement's "stops after
+        # that task succeeds"; a stop task that had already finished when
+        # it was named is never seen again and constrains nothing)
+        after_req = False
+        for k, r in enumerate(results):
+            for sid, it in (((r.get('monitors') or {}).get('end') or {}).get(
+                    'succeeded_iters') or []):
+                if sid == tid and (k > 0 or it > at):
+                    after_req = True
+        if succeeded and not after_req:
+            ctx.count('stop_task_had_already_succeeded')
+        if succeeded and after_req and not auto and not last.get('capped'):
             ctx.violation('C43:no-shutdown-after-stop-task',
                           f'stop task {tid} succeeded but the scheduler did '
                           f'not shut down ({last.get("stop_reason")}, '
